@@ -364,6 +364,11 @@ func runC02(c *fw.Ctx) {
 		if j < 70 {
 			n = j + 1 // every small size, in particular around powers of two
 		}
+		if j%3 == 0 {
+			// sizes in a window around a power of two, up to 2^14 (2^17 thorough)
+			k := 1 + (j/3+c.Block)%c.Pick(14, 17)
+			n = max(1, 1<<k+r.IntN(7)-3)
+		}
 		beta := []int{0, 250, 500, 999, 1000, r.IntN(1001)}[r.IntN(6)]
 		keys := make([]Elem, 0, n+n/3)
 		perm := r.Perm(n)
@@ -386,7 +391,14 @@ func runC02(c *fw.Ctx) {
 
 func c02history(h *c02hist, caseIdx int) {
 	r := h.r
-	h.t = stree.New(h.beta, func(a, b Elem) int { h.ncmp++; return cmpElem(a, b) })
+	wide := r.IntN(3) == 0
+	h.t = stree.New(h.beta, func(a, b Elem) int {
+		h.ncmp++
+		if wide {
+			return cmpElemWide(a, b)
+		}
+		return cmpElem(a, b)
+	})
 	h.log.add("New(beta=%d)", h.beta)
 	pattern := (caseIdx + h.c.Block) % 8
 	h.useReplace = r.IntN(4) == 0
